@@ -71,11 +71,10 @@ func (calc *RewardCalculator) Calculate() (amt *balance.Amount, err error) {
 	cycleNo, firstInCycle, _ := calc.getCycleNo()
 	if calc.cached.available() {
 		*amt = *calc.cached.amount
-		// return if all reward years already passed
-		if calc.cached.burnedout {
-			return
-		}
-		// recalculation is not needed if it's in the same cycle
+		// recalculation is not needed if it's in the same cycle; on the first block of a
+		// cycle the amount is calculated again, also while the burnout rate is in force:
+		// the cache is lost on a restart, and a node that was restarted must not come to
+		// another amount than one that kept running
 		if !firstInCycle {
 			return
 		}
